@@ -4,7 +4,7 @@ import gen_http as G
 
 HARNESS = "rx_driver"
 LEAN_MODULES = ["ViaProofs.C05"]
-LEMMA_MODULES = ['ViaProofs.Frag.Lines', 'ViaProofs.Frag.Headers', 'ViaProofs.Frag.Compose', 'ViaProofs.Trans.RL', 'ViaProofs.Trans.SL', 'ViaProofs.Trans.FL', 'ViaProofs.Trans.CH', 'ViaProofs.Trans.MH']
+LEMMA_MODULES = ['ViaProofs.Frag.Lines', 'ViaProofs.Frag.Headers', 'ViaProofs.Frag.Compose', 'ViaProofs.Trans.RL', 'ViaProofs.Trans.SL', 'ViaProofs.Trans.FL', 'ViaProofs.Trans.CH', 'ViaProofs.Trans.MH', 'ViaProofs.Trans.CK']
 REQUIRED_THEOREMS = ['Via.RR.receive_suffix', 'Via.RR.receive_progress', 'Via.RR.ok_init', 'Via.RR.ok_step', 'Via.RR.readLoop_done', 'Via.RS.receive_suffix', 'Via.RS.receive_progress', 'Via.RS.ok_init', 'Via.RS.ok_step', 'Via.RS.readLoop_done']
 LEVEL = "proof"
 RULE = ("byte streams: uniformly random octets, random octets over an HTTP-ish alphabet, valid messages with random corruption "
@@ -12,7 +12,7 @@ RULE = ("byte streams: uniformly random octets, random octets over an HTTP-ish a
         "fed to request and response receivers of every configuration and container in random fragments; oracle: no "
         "sanitizer abort / exception, every read ends with nothing left unless INVALID, receive() calls per read <= bytes+2; "
         "non-trivial = the stream is not a valid message; distinct = distinct (config, stream, partition)")
-TRUSTED_BASE = ["tools/cxx2lean.py (translator of the parse_char / parse state machines and of message_headers::parse: RL, SL, FL, CH from the current C++ into Lean; the model is proved equal to the translation in ViaProofs/Trans)", "Lean 4.33 kernel", "axioms: propext, Classical.choice, Quot.sound at most",
+TRUSTED_BASE = ["tools/cxx2lean.py (translator of the parse_char / parse state machines and of message_headers::parse and rx_chunk::parse: RL, SL, FL, CH from the current C++ into Lean; the model is proved equal to the translation in ViaProofs/Trans)", "Lean 4.33 kernel", "axioms: propext, Classical.choice, Quot.sound at most",
                 "rx_driver built with ASan + UBSan + _GLIBCXX_DEBUG: memory safety of the C++ is observed, not proved",
                 "via_model driver"]
 ASSUMPTIONS = ["termination, progress and index arithmetic are theorems about the model; that the C++ computes the same function is "
